@@ -59,6 +59,21 @@ func (t *Tunnel) Write(pkt []byte) {
 	t.BytesSent += int64(n)
 }
 
+// Close releases everything that belongs to the tunnel: the connection to the
+// remote desktop server (which also ends the goroutine forwarding its data) and
+// the client facing transports
+func (t *Tunnel) Close() {
+	if t.rwc != nil {
+		t.rwc.Close()
+	}
+	if t.transportOut != nil {
+		t.transportOut.Close()
+	}
+	if t.transportIn != nil {
+		t.transportIn.Close()
+	}
+}
+
 // Read picks up a packet from the transport and returns the packet type
 // packet, with the header removed, and the packet size. It updates the
 // statistics for bytes received
